@@ -108,6 +108,28 @@ pub fn lzma_plain(data: &[u8]) -> Outcome {
     wrap(c, out)
 }
 
+/// `lzma_decompress` with the input position afterwards.
+pub fn lzma_plain_consumed(data: &[u8]) -> (Outcome, usize) {
+    let mut out = Vec::new();
+    let mut rd = data;
+    let c = catch(|| lzma_rs::lzma_decompress(&mut rd, &mut out));
+    let left = rd.len();
+    (wrap(c, out), data.len() - left)
+}
+
+/// The documented raw building blocks: LzmaParams::read_header + LzmaDecoder::new + decompress.
+pub fn lzma_blocks_consumed(data: &[u8], o: &Options) -> (Outcome, usize) {
+    let mut out = Vec::new();
+    let mut rd = data;
+    let c = catch(|| -> Result<(), lzma_rs::error::Error> {
+        let params = LzmaParams::read_header(&mut rd, o)?;
+        let mut d = LzmaDecoder::new(params, o.memlimit)?;
+        d.decompress(&mut rd, &mut out)
+    });
+    let left = rd.len();
+    (wrap(c, out), data.len() - left)
+}
+
 fn is_default(o: &Options) -> bool {
     matches!(o.unpacked_size, lzma_rs::decompress::UnpackedSize::ReadFromHeader) && o.memlimit.is_none() && !o.allow_incomplete
 }
